@@ -46,11 +46,19 @@ def case_strategy(draw):
     }
 
 
+TIER = "quick"
+
+
+def prepare(tier):
+    global TIER
+    TIER = tier
+
+
 @st.composite
 def many_case(draw):
     """Many isolated components under a small semantic label: the component count, not the label value,
     decides the output dtype (counts around 2^8 and, in the thorough tier, 2^16)."""
-    counts = [1, 254, 255, 256, 257, 300, 511, 513]
+    counts = [1, 254, 255, 256, 257, 300, 511, 513] + ([65535, 65536, 65537] if TIER == "thorough" else [])
     return {
         "kind": "many",
         "n_pred": draw(st.sampled_from(counts + [0])),
@@ -77,6 +85,7 @@ def build_many(case):
 
 
 def searches(tier):
+    prepare(tier)
     n = BUDGET[tier]
     return [("maps", case_strategy(), n), ("many_components", many_case(), max(6, n // 8))]
 
